@@ -51,7 +51,11 @@ impl LintPass for LostCalleeSavedRegisterCheck {
                         }
                     }
 
-                    if !found {
+                    // The value only has to survive if the function can still
+                    // return from here: a path that ends the program (an
+                    // error exit) gives nothing back to the caller
+                    let can_return = || cfg.iter_nexts(node.clone()).any(|next| next.is_return());
+                    if !found && can_return() {
                         errors.push(LintError::LostRegisterValue(reg));
                     }
                 }
